@@ -514,49 +514,8 @@ func c12Gate(w *World, r *Report) {
 		if !ok {
 			continue
 		}
-		for _, b := range exec.Blocks {
-			cond := branchCond(b)
-			if cond == nil {
-				continue
-			}
-			x, nn, ok := nilTest(cond)
-			if !ok || !sameValue(x, cv) {
-				continue
-			}
-			// must: no path from the error edge leaves Execute without passing an exit with a non-zero status
-			exits := func(bb *ssa.BasicBlock) bool {
-				for _, ins := range bb.Instrs {
-					if ci, ok := ins.(ssa.CallInstruction); ok && exitsNonZero(ci, 0) {
-						return true
-					}
-				}
-				return false
-			}
-			seen := map[*ssa.BasicBlock]bool{}
-			stack := []*ssa.BasicBlock{b.Succs[nn]}
-			leaks, some := false, false
-			for len(stack) > 0 {
-				bb := stack[len(stack)-1]
-				stack = stack[:len(stack)-1]
-				if seen[bb] {
-					continue
-				}
-				seen[bb] = true
-				if exits(bb) {
-					some = true
-					continue
-				}
-				if noReturnBlock(bb) {
-					continue
-				}
-				if len(bb.Succs) == 0 {
-					leaks = true
-				}
-				stack = append(stack, bb.Succs...)
-			}
-			if some && !leaks {
-				okExit = true
-			}
+		if errorForcesExit(w, cv, 0) {
+			okExit = true
 		}
 	}
 	if okExit {
@@ -1372,12 +1331,7 @@ func c12Placement(w *World, vpd *ssa.Function, kinds map[string]bool) {
 		if !ok {
 			continue
 		}
-		ex, ok := iff.Cond.(*ssa.Extract)
-		if !ok || ex.Index != 1 {
-			continue
-		}
-		ta, ok := ex.Tuple.(*ssa.TypeAssert)
-		if ok && ta.CommaOk && modelTypeName(ta.AssertedType) == "LengthFieldAttribute" {
+		if kindTestOf(iff.Cond, 0) == "LengthFieldAttribute" {
 			lenTestBlock = b
 			break
 		}
@@ -1393,8 +1347,91 @@ func c12Placement(w *World, vpd *ssa.Function, kinds map[string]bool) {
 					appendCall = ins
 				}
 			}
+			// ... or hands the field to a helper that appends it
+			if g := c.Call.StaticCallee(); g != nil && g.Pkg == w.Parser && g.Blocks != nil && appendCall == nil {
+				for i := range appendsFieldParam(g) {
+					if i < len(c.Call.Args) && isFieldPtr(c.Call.Args[i].Type()) {
+						appendCall = ins
+					}
+				}
+			}
 		}
 	})
+	// the diagnostics live in a helper that says, by its bool result, whether the field may stay: every diagnostic in the helper is
+	// followed by `return false` only, and in the collector the false edge of the call's result does not reach the append
+	for _, b := range vpd.Blocks {
+		if !edgeDominates(lenTestBlock, 0, b) {
+			continue
+		}
+		for _, ins := range b.Instrs {
+			c, ok := ins.(*ssa.Call)
+			if !ok {
+				continue
+			}
+			h := c.Call.StaticCallee()
+			if h == nil || h.Pkg != w.Parser || h.Blocks == nil || h == vpd {
+				continue
+			}
+			if rs := h.Signature.Results(); rs.Len() != 1 || !isBoolType(rs.At(0).Type()) {
+				continue
+			}
+			// where does the collector go when the helper says no?
+			skips := false
+			if c.Referrers() != nil {
+				for _, ref := range *c.Referrers() {
+					iff, ok := ref.(*ssa.If)
+					if !ok {
+						continue
+					}
+					from := iff.Block().Succs[1]
+					skips = appendCall == nil || !(from == appendCall.Block() || reachesWithin2(from, appendCall, lenTestBlock))
+				}
+			}
+			for _, hb := range h.Blocks {
+				for _, hi := range hb.Instrs {
+					if !isAddSyntaxError(hi) {
+						continue
+					}
+					// every return that follows the diagnostic is `return false`
+					allFalse := true
+					seen := map[*ssa.BasicBlock]bool{}
+					stack := []*ssa.BasicBlock{hb}
+					for len(stack) > 0 {
+						x := stack[len(stack)-1]
+						stack = stack[:len(stack)-1]
+						if seen[x] {
+							continue
+						}
+						seen[x] = true
+						if ret, ok := x.Instrs[len(x.Instrs)-1].(*ssa.Return); ok {
+							k, isConst := ret.Results[0].(*ssa.Const)
+							if !isConst || k.Value == nil || constant.BoolVal(k.Value) {
+								allFalse = false
+							}
+						}
+						stack = append(stack, x.Succs...)
+					}
+					kind := "other"
+					for _, bb := range h.Blocks {
+						cond := branchCond(bb)
+						if cond == nil || !(edgeDominates(bb, 0, hb) || edgeDominates(bb, 1, hb)) {
+							continue
+						}
+						if v, _, ok := nilTest(cond); ok && typeIs(v.Type(), modPath+"/internal/model", "Field") {
+							kind = "declared-twice"
+						} else if dependsOnROOT(cond, 0) {
+							kind = "outside-root"
+						}
+					}
+					if skips && allFalse {
+						kinds[kind] = true
+					} else {
+						kinds[kind+"(not skipped)"] = true
+					}
+				}
+			}
+		}
+	}
 	for _, b := range vpd.Blocks {
 		if !edgeDominates(lenTestBlock, 0, b) {
 			continue
@@ -1442,6 +1479,49 @@ func c12Placement(w *World, vpd *ssa.Function, kinds map[string]bool) {
 	}
 }
 
+// kindTestOf: cond is true exactly when a value's Attr is of one model attribute kind - the ok of a checked type assertion, or the
+// bool a parser-package helper returns for such an ok (`attr, ok := asLengthField(f)`, `isLengthField(f)`). Returns the kind's name.
+func kindTestOf(cond ssa.Value, depth int) string {
+	if depth > 3 {
+		return ""
+	}
+	switch x := cond.(type) {
+	case *ssa.Extract:
+		if ta, ok := x.Tuple.(*ssa.TypeAssert); ok {
+			if x.Index == 1 && ta.CommaOk {
+				return modelTypeName(ta.AssertedType)
+			}
+			return ""
+		}
+		if c, ok := x.Tuple.(*ssa.Call); ok {
+			return kindTestOfResult(c, x.Index, depth)
+		}
+	case *ssa.Call:
+		return kindTestOfResult(x, 0, depth)
+	}
+	return ""
+}
+
+func kindTestOfResult(c *ssa.Call, idx int, depth int) string {
+	h := c.Call.StaticCallee()
+	if h == nil || h.Blocks == nil || theWorld == nil || h.Pkg != theWorld.Parser {
+		return ""
+	}
+	kind := ""
+	for _, b := range h.Blocks {
+		ret, ok := b.Instrs[len(b.Instrs)-1].(*ssa.Return)
+		if !ok || idx >= len(ret.Results) || !isBoolType(ret.Results[idx].Type()) {
+			continue
+		}
+		k := kindTestOf(ret.Results[idx], depth+1)
+		if k == "" || (kind != "" && kind != k) {
+			return ""
+		}
+		kind = k
+	}
+	return kind
+}
+
 func dependsOnROOT(v ssa.Value, depth int) bool {
 	if depth > 8 {
 		return false
@@ -1482,8 +1562,32 @@ func dependsOnROOT(v ssa.Value, depth int) bool {
 	case *ssa.UnOp:
 		if x.Op == token.MUL {
 			if fa, ok := x.X.(*ssa.FieldAddr); ok {
-				if tn, f, _, _ := fieldOf(fa); tn == "Packet" && f == "IsRoot" {
+				tn, f, _, _ := fieldOf(fa)
+				if tn == "Packet" && f == "IsRoot" {
 					return true // the model's record of the `root` keyword
+				}
+				// a member of a record of the parser's own: what is stored there, anywhere
+				if theWorld != nil && isBoolType(x.Type()) {
+					found := false
+					for _, g := range theWorld.allFuncsInRepo() {
+						if g.Pkg != theWorld.Parser || found {
+							continue
+						}
+						forEachInstr(g, func(_ *ssa.BasicBlock, ins ssa.Instruction) {
+							st, ok := ins.(*ssa.Store)
+							if !ok || found {
+								return
+							}
+							fa2, ok := st.Addr.(*ssa.FieldAddr)
+							if !ok {
+								return
+							}
+							if tn2, f2, _, _ := fieldOf(fa2); tn2 == tn && f2 == f && dependsOnROOT(st.Val, depth+1) {
+								found = true
+							}
+						})
+					}
+					return found
 				}
 			}
 		}
@@ -1498,6 +1602,22 @@ func dependsOnROOT(v ssa.Value, depth int) bool {
 		return dependsOnROOT(x.X, depth+1)
 	}
 	return false
+}
+
+// reachesWithin2: like reachesWithin, but starting at block from itself (not at its successors).
+func reachesWithin2(from *ssa.BasicBlock, target ssa.Instruction, stop *ssa.BasicBlock) bool {
+	if from == target.Block() {
+		return true
+	}
+	if from == stop {
+		return false
+	}
+	return reachesWithin(from, target, stop)
+}
+
+func isBoolType(t types.Type) bool {
+	b, ok := t.Underlying().(*types.Basic)
+	return ok && b.Info()&types.IsBoolean != 0
 }
 
 // reachesWithin: can control flow from b reach target without passing through stop (the per-iteration test block)?
@@ -1692,7 +1812,7 @@ func c12Options(w *World, r *Report) {
 					out[i] = true
 				}
 			case ssa.CallInstruction:
-				if g := x.Common().StaticCallee(); g != nil && g.Pkg == w.Model && g != fn {
+				if g := x.Common().StaticCallee(); g != nil && pkgOfFunc(g) == w.Model && g != fn {
 					for j := range lookupParams(g, depth+1) {
 						if j < len(x.Common().Args) {
 							if i := idxOf(x.Common().Args[j]); i >= 0 {
@@ -1717,7 +1837,7 @@ func c12Options(w *World, r *Report) {
 						consumed[s] = true
 					}
 				case ssa.CallInstruction:
-					if g := x.Common().StaticCallee(); g != nil && g.Pkg == w.Model && g.Blocks != nil && !seenFn[g] {
+					if g := x.Common().StaticCallee(); g != nil && pkgOfFunc(g) == w.Model && g.Blocks != nil && !seenFn[g] {
 						seenFn[g] = true
 						work = append(work, g)
 					}
@@ -1732,7 +1852,7 @@ func c12Options(w *World, r *Report) {
 						consumed[s] = true
 					}
 				case ssa.CallInstruction:
-					if g := x.Common().StaticCallee(); g != nil && g.Pkg == w.Model {
+					if g := x.Common().StaticCallee(); g != nil && pkgOfFunc(g) == w.Model {
 						for j := range lookupParams(g, 0) {
 							if j < len(x.Common().Args) {
 								if s, ok := constString(x.Common().Args[j]); ok {
